@@ -98,6 +98,9 @@ func cmdCheck(args []string) int {
 	if s := os.Getenv("VERIF_SEED"); s != "" {
 		seed, _ = strconv.Atoi(s)
 	}
+	if prop == "C19" {
+		return cmdCheckC19(*tier, seed)
+	}
 	t0 := time.Now()
 	die := func(format string, a ...any) int {
 		fmt.Printf("ENGINE-ERROR property=%s %s\n", prop, fmt.Sprintf(format, a...))
@@ -124,6 +127,13 @@ func cmdCheck(args []string) int {
 			fs = sp.Lemmas[k]
 		}
 		if fs == nil || fs.Kind == "iface" || fs.Kind == "functype" || fs.Pure && len(fs.Ensures) == 0 {
+			continue
+		}
+		if prop == "C06" {
+			// panic-freedom is checked for every function that any property puts under contract
+			if fs.Kind != "lemma" && len(fs.Props) > 0 {
+				specs = append(specs, fs)
+			}
 			continue
 		}
 		for _, pr := range fs.Props {
